@@ -774,3 +774,145 @@ pub fn render_trivia(prog: &Program, t: &mut crate::tape::Tape) -> Vec<Rendered>
         })
         .collect()
 }
+
+// ------------------------------------------------------------------------------------------
+// Traversal
+
+impl E {
+    /// Direct sub-expressions, in source order.
+    pub fn children_mut(&mut self) -> Vec<&mut E> {
+        match self {
+            E::Num(_) | E::Str(_) | E::Status(_) | E::Prim(_) | E::Var(_) => vec![],
+            E::Object(ps) => ps.iter_mut().collect(),
+            E::Array(i) | E::Paren(i) | E::Unary(i, _) | E::Rec(_, i) | E::Ann(_, _, i) => vec![i.as_mut()],
+            E::Property(_, _, rhs) => vec![rhs.as_mut()],
+            E::Uri(segs, params) => {
+                let mut v: Vec<&mut E> = Vec::new();
+                for s in segs.iter_mut() {
+                    if let Seg::Var(e) = s {
+                        v.push(e);
+                    }
+                }
+                if let Some(ps) = params {
+                    v.extend(ps.iter_mut());
+                }
+                v
+            }
+            E::Content(metas, body) => {
+                let mut v: Vec<&mut E> = metas.iter_mut().map(|(_, e)| e).collect();
+                if let Some(b) = body {
+                    v.push(b.as_mut());
+                }
+                v
+            }
+            E::Op(_, os) => os.iter_mut().collect(),
+            E::Transfer { params, domain, range, .. } => {
+                let mut v: Vec<&mut E> = Vec::new();
+                if let Some(ps) = params {
+                    v.extend(ps.iter_mut());
+                }
+                if let Some(d) = domain {
+                    v.push(d.as_mut());
+                }
+                v.push(range.as_mut());
+                v
+            }
+            E::Relation(u, xs) => {
+                let mut v: Vec<&mut E> = vec![u.as_mut()];
+                v.extend(xs.iter_mut());
+                v
+            }
+            E::App(_, args) => args.iter_mut().collect(),
+        }
+    }
+
+    pub fn children(&self) -> Vec<&E> {
+        match self {
+            E::Num(_) | E::Str(_) | E::Status(_) | E::Prim(_) | E::Var(_) => vec![],
+            E::Object(ps) => ps.iter().collect(),
+            E::Array(i) | E::Paren(i) | E::Unary(i, _) | E::Rec(_, i) | E::Ann(_, _, i) => vec![i.as_ref()],
+            E::Property(_, _, rhs) => vec![rhs.as_ref()],
+            E::Uri(segs, params) => {
+                let mut v: Vec<&E> = Vec::new();
+                for s in segs.iter() {
+                    if let Seg::Var(e) = s {
+                        v.push(e);
+                    }
+                }
+                if let Some(ps) = params {
+                    v.extend(ps.iter());
+                }
+                v
+            }
+            E::Content(metas, body) => {
+                let mut v: Vec<&E> = metas.iter().map(|(_, e)| e).collect();
+                if let Some(b) = body {
+                    v.push(b.as_ref());
+                }
+                v
+            }
+            E::Op(_, os) => os.iter().collect(),
+            E::Transfer { params, domain, range, .. } => {
+                let mut v: Vec<&E> = Vec::new();
+                if let Some(ps) = params {
+                    v.extend(ps.iter());
+                }
+                if let Some(d) = domain {
+                    v.push(d.as_ref());
+                }
+                v.push(range.as_ref());
+                v
+            }
+            E::Relation(u, xs) => {
+                let mut v: Vec<&E> = vec![u.as_ref()];
+                v.extend(xs.iter());
+                v
+            }
+            E::App(_, args) => args.iter().collect(),
+        }
+    }
+
+    /// Pre-order visit of every node.
+    pub fn visit<'a>(&'a self, f: &mut dyn FnMut(&'a E)) {
+        f(self);
+        for c in self.children() {
+            c.visit(f);
+        }
+    }
+
+    /// Pre-order visit with mutation; `f` returns false to stop descending into the node.
+    pub fn visit_mut(&mut self, f: &mut dyn FnMut(&mut E) -> bool) {
+        if f(self) {
+            for c in self.children_mut() {
+                c.visit_mut(f);
+            }
+        }
+    }
+}
+
+impl Program {
+    /// Visits every top-level expression (declaration bodies and resources).
+    pub fn visit_exprs_mut(&mut self, f: &mut dyn FnMut(&mut E) -> bool) {
+        for m in self.modules.iter_mut() {
+            for s in m.stmts.iter_mut() {
+                match s {
+                    Stmt::Let(d) => d.body.visit_mut(f),
+                    Stmt::Res(e) => e.visit_mut(f),
+                    Stmt::Use(_) => {}
+                }
+            }
+        }
+    }
+
+    pub fn visit_exprs<'a>(&'a self, f: &mut dyn FnMut(&'a E)) {
+        for m in self.modules.iter() {
+            for s in m.stmts.iter() {
+                match s {
+                    Stmt::Let(d) => d.body.visit(f),
+                    Stmt::Res(e) => e.visit(f),
+                    Stmt::Use(_) => {}
+                }
+            }
+        }
+    }
+}
